@@ -834,3 +834,201 @@ def run(ctx) -> None:  # noqa: F811
                   "given value: the object then evaluates chi for other coefficients than the ones that were set",
                   key_detail="stored")
     _inner_run_c21(ctx)
+
+
+# ---- added after the mutation sweep: the polar angle and the azimuth reach the expansion in their own places
+_inner_run_c21b = run
+
+_EVAL = "_evaluate_from_angular_grid"
+_POLAR, _AZIMUTH = "polar angle", "azimuth"
+_RESHAPE_CALLS = {"array", "asarray", "asanyarray", "ascontiguousarray", "astype", "expand_dims", "squeeze", "copy",
+                  "float32", "float64", "broadcast_to", "reshape"}
+
+
+class _AngleRoles:
+    """Role (polar angle / azimuth / unknown) of an expression, by the origin of its value.
+
+    Origins: position 1 / 2 of any `_evaluate_from_angular_grid` definition (the interface fixed by the abstract
+    method of BaseTransferFunction), a magnitude `sqrt(..)` / `hypot(..)` resp. an `arctan2(..)`, and the i-th
+    element of the pair returned by a function of the package whose returned elements have such a role.
+    Scaling (x * c, x / c, x *= c), casts and reshapes keep the role."""
+
+    def __init__(self, repo):
+        self.repo = repo
+        self._ret: dict[str, list] = {}
+        self._df: dict[int, DataFlow] = {}
+
+    def df(self, f) -> DataFlow:
+        if id(f.node) not in self._df:
+            self._df[id(f.node)] = DataFlow(f.node)
+        return self._df[id(f.node)]
+
+    def callee(self, f, call: ast.Call):
+        fn = call.func
+        if isinstance(fn, ast.Attribute) and isinstance(fn.value, ast.Name) and fn.value.id == "self" and f.cls is not None:
+            return f.cls.find_method(fn.attr)
+        name = dotted(fn)
+        if name and "." not in name:
+            try:
+                t = self.repo.resolve_name(f.module, name)
+            except Exception:
+                return None
+            return t if hasattr(t, "positional_params") else None
+        return None
+
+    def returned(self, f) -> list:
+        """roles of the elements of the tuple `f` returns (empty list when f does not return one fixed-length tuple)"""
+        q = f.qualname
+        if q in self._ret:
+            return self._ret[q]
+        self._ret[q] = []  # recursion guard
+        rets = [r for r in walk_no_nested(f.node) if isinstance(r, ast.Return) and r.value is not None]
+        out: list = []
+        if rets and all(isinstance(r.value, ast.Tuple) for r in rets) and len({len(r.value.elts) for r in rets}) == 1:
+            df = self.df(f)
+            cols = []
+            for i in range(len(rets[0].value.elts)):
+                rs = {self.role(f, df.cfg.node_of(r).idx, r.value.elts[i]) for r in rets}
+                cols.append(rs.pop() if len(rs) == 1 else None)
+            out = cols
+        self._ret[q] = out
+        return out
+
+    def role(self, f, at: int, e: ast.expr, depth: int = 0):
+        if depth > 10:
+            return None
+        if isinstance(e, ast.Call):
+            s = last_attr(e)
+            if s in ("sqrt", "hypot"):
+                return _POLAR
+            if s == "arctan2":
+                return _AZIMUTH
+            if s in _RESHAPE_CALLS:
+                if e.args:
+                    return self.role(f, at, e.args[0], depth + 1)
+                if isinstance(e.func, ast.Attribute):
+                    return self.role(f, at, e.func.value, depth + 1)
+            return None
+        if isinstance(e, ast.Subscript):
+            items = e.slice.elts if isinstance(e.slice, ast.Tuple) else [e.slice]
+            if all(isinstance(i, ast.Slice) or (isinstance(i, ast.Constant) and i.value in (None, Ellipsis)) for i in items):
+                return self.role(f, at, e.value, depth + 1)
+            return None
+        if isinstance(e, ast.BinOp) and isinstance(e.op, (ast.Mult, ast.Div)):
+            l, r = self.role(f, at, e.left, depth + 1), self.role(f, at, e.right, depth + 1)
+            if isinstance(e.op, ast.Div):
+                return l if r is None else None
+            return l if r is None else (r if l is None else None)
+        if isinstance(e, ast.Name):
+            df = self.df(f)
+            roles = set()
+            for d in df.reaching(at, e.id):
+                if d.kind == "aug":
+                    st = df.cfg.nodes[d.node].ast
+                    if isinstance(st, ast.AugAssign) and isinstance(st.op, (ast.Mult, ast.Div)) and \
+                            self.role(f, d.node, st.value, depth + 1) is None:
+                        continue  # scaling: the role is that of the definitions it updates
+                    return None
+                if d.kind == "param":
+                    pp = f.positional_params
+                    if f.name == _EVAL and e.id in pp and pp.index(e.id) in (1, 2):
+                        roles.add(_POLAR if pp.index(e.id) == 1 else _AZIMUTH)
+                    else:
+                        roles.add(None)
+                    continue
+                if d.kind != "assign" or d.value is None:
+                    roles.add(None)
+                    continue
+                st = df.cfg.nodes[d.node].ast
+                tg = st.targets[0] if isinstance(st, ast.Assign) and len(st.targets) == 1 else None
+                if isinstance(tg, (ast.Tuple, ast.List)) and not isinstance(st.value, (ast.Tuple, ast.List)):
+                    idx = [i for i, t in enumerate(tg.elts) if isinstance(t, ast.Name) and t.id == e.id]
+                    r = None
+                    src = st.value
+                    hops = 0
+                    while isinstance(src, ast.Name) and hops < 4:  # pair kept in a temporary before it is unpacked
+                        sd = df.single_def(d.node, src.id)
+                        src = sd.value if sd is not None and sd.kind == "assign" else None
+                        hops += 1
+                    if len(idx) == 1 and isinstance(src, ast.Call):
+                        g = self.callee(f, src)
+                        if g is not None:
+                            rr = self.returned(g)
+                            if len(rr) == len(tg.elts):
+                                r = rr[idx[0]]
+                    roles.add(r)
+                else:
+                    roles.add(self.role(f, d.node, d.value, depth + 1))
+            return roles.pop() if len(roles) == 1 else None
+        return None
+
+
+def _angle_forwarding(ctx) -> None:
+    repo = ctx.repo
+    mod = repo.module(MOD)
+    base = repo.method(MOD, "BaseTransferFunction", _EVAL)
+    formal = base.positional_params
+    ctx.require(len(formal) >= 3, f"{base.qualname}: expected (self, polar angle, azimuth)")
+    R = _AngleRoles(repo)
+    # the provider of the angular grid must be readable, otherwise the chain has no root
+    psf = repo.function("abtem.core.grid", "polar_spatial_frequencies")
+    ctx.require(R.returned(psf) == [_POLAR, _AZIMUTH],
+                f"{psf.qualname}: does not visibly return (magnitude, arctan2) — roles {R.returned(psf)}")
+    funcs = list(mod.functions.values()) + [f for c in mod.classes.values() for defs in c.methods.values() for f in defs]
+    n_rooted = 0
+    for f in funcs:
+        calls = [c for c in walk_no_nested(f.node) if isinstance(c, ast.Call) and isinstance(c.func, ast.Attribute)
+                 and c.func.attr == _EVAL]
+        if not calls:
+            continue
+        df = R.df(f)
+        seen: dict[str, int] = {}
+        for c in sorted(calls, key=lambda c: (c.lineno, c.col_offset)):
+            recv = dotted(c.func.value) or ""
+            label = recv if recv == "self" or recv.startswith("self.") else "<component>"
+            seen[label] = seen.get(label, 0) + 1
+            construct = f"{f.qualname}:{label}.{_EVAL}" + (f"#{seen[label]}" if seen[label] > 1 else "")
+            if any(isinstance(a, ast.Starred) for a in c.args) or any(k.arg is None for k in c.keywords):
+                raise AnalysisError(f"{f.qualname}: call of {_EVAL} with */** arguments is not modelled")
+            bound: dict[int, ast.expr] = {i + 1: a for i, a in enumerate(c.args)}
+            for k in c.keywords:
+                if k.arg in formal:
+                    bound[formal.index(k.arg)] = k.value
+            ctx.require(1 in bound and 2 in bound, f"{f.qualname}: call of {_EVAL} does not pass both angles")
+            at = None
+            for nd in df.cfg.nodes:
+                if nd.ast is not None and nd.kind not in ("entry", "exit") and any(x is c for x in ast.walk(
+                        nd.ast.test if isinstance(nd.ast, (ast.If, ast.While)) else
+                        nd.ast.iter if isinstance(nd.ast, ast.For) else nd.ast)):
+                    at = nd.idx
+                    break
+            ctx.require(at is not None, f"{f.qualname}: call of {_EVAL} has no CFG node")
+            got = {pos: R.role(f, at, bound[pos]) for pos in (1, 2)}
+            want = {1: _POLAR, 2: _AZIMUTH}
+            if got[1] is None and got[2] is None:
+                ctx.info("R-ANGLEFWD", construct, f.loc(c), "angles of unknown origin (user-supplied samples)")
+                continue
+            n_rooted += 1
+            bad = [pos for pos in (1, 2) if got[pos] is not None and got[pos] != want[pos]]
+            ctx.check(not bad, "R-ANGLEFWD", construct, f.loc(c),
+                      "polar angle -> position 1, azimuth -> position 2",
+                      "; ".join(f"the {got[p]} is passed in the place of the {want[p]}" for p in bad) +
+                      ": the expansion is evaluated as chi(phi, alpha)", key_detail="roles")
+    ctx.require(n_rooted >= 3, f"R-ANGLEFWD rooted only {n_rooted} calls of {_EVAL}")
+    # the grid method that feeds _evaluate_kernel
+    ag = repo.method(MOD, "BaseTransferFunction", "_angular_grid")
+    rr = R.returned(ag)
+    ctx.require(len(rr) == 2 and None not in rr, f"{ag.qualname}: returned pair not traced to the polar grid ({rr})")
+    ctx.check(rr == [_POLAR, _AZIMUTH], "R-ANGLEFWD", f"{ag.qualname}:returned pair", ag.where,
+              "returns (polar angle, azimuth)", f"returns ({rr[0]}, {rr[1]}): every caller unpacks (alpha, phi)",
+              key_detail="grid")
+
+
+def run(ctx) -> None:  # noqa: F811
+    ctx.rule("R-ANGLEFWD", "origin tracking of the two angles through abtem/transfer.py: the polar angle (a magnitude "
+             "sqrt/hypot of the frequencies, scaled by the wavelength; position 1 of every "
+             "_evaluate_from_angular_grid) and the azimuth (arctan2; position 2) are handed on in their own places "
+             "at every call of _evaluate_from_angular_grid — from _angular_grid through _evaluate_kernel and from "
+             "the CTF to its components.  chi(alpha, phi) evaluated with the two exchanged is another function")
+    _angle_forwarding(ctx)
+    _inner_run_c21b(ctx)
